@@ -30,6 +30,11 @@ class Call:
         return self._guards
 
     @property
+    def rguards(self):
+        """guards refined by path feasibility on immutable subjects"""
+        return self.q.cfg.guards_refined(self.b)
+
+    @property
     def result(self):
         """stripped origin expression of the call's result"""
         return strip(self.q.ev.call_expr(self.b))
